@@ -261,23 +261,48 @@ class Alignment:
             rs = nr.get(name, [])
             if len(cs) == 1 and len(rs) == 1 and len(items_c[cs[0]]['arg_tys']) == len(items_r[rs[0]]['arg_tys']):
                 self.fn[cs[0]] = rs[0]
-        # closures follow their parents
-        for k, f in cur.items():
-            if f['kind'] == 'Closure':
-                p = f.get('parent')
-                suffix = k[len(p):] if p and k.startswith(p) else None
-                chain = p
-                # walk up to the nearest non-closure ancestor
-                segs = []
-                kk = k
-                while kk in cur and cur[kk]['kind'] == 'Closure':
-                    par = cur[kk]['parent']
-                    segs.append(kk[len(par):])
-                    kk = par
-                if kk in self.fn:
-                    cand = self.fn[kk] + ''.join(reversed(segs))
-                    if cand in ref:
-                        self.fn[k] = cand
+        # closures follow their parents. Same number of closures under a parent on both sides: by position (closure#i). A
+        # different number (a closure was added or removed): order-preserving match on the signature (argument types after
+        # the environment, return type), so that a new closure written *before* an existing one does not shift the others.
+        def csig(f, tok):
+            return (tuple(_norm_ty(t, tok) for t in f['arg_tys'][1:]), _norm_ty(f['ret_ty'], tok))
+
+        def children(fns):
+            ch = defaultdict(list)
+            for k, f in fns.items():
+                if f['kind'] == 'Closure' and f.get('parent'):
+                    ch[f['parent']].append(k)
+            num = lambda k: int(re.search(r'closure#(\d+)\}$', k).group(1)) if re.search(r'closure#(\d+)\}$', k) else 0
+            for p_ in ch:
+                ch[p_].sort(key=num)
+            return ch
+        cch, rch = children(cur), children(ref)
+        work = [k for k in cur if cur[k]['kind'] != 'Closure' and k in self.fn]
+        while work:
+            pk = work.pop()
+            cs, rs = cch.get(pk, []), rch.get(self.fn[pk], [])
+            if len(cs) == len(rs):
+                pairs = list(zip(cs, rs))
+            else:
+                # longest common subsequence on signatures
+                A = [csig(cur[k], ctok) for k in cs]
+                B = [csig(ref[k], rtok) for k in rs]
+                n, m = len(A), len(B)
+                L = [[0] * (m + 1) for _ in range(n + 1)]
+                for i in range(n - 1, -1, -1):
+                    for j2 in range(m - 1, -1, -1):
+                        L[i][j2] = L[i + 1][j2 + 1] + 1 if A[i] == B[j2] else max(L[i + 1][j2], L[i][j2 + 1])
+                pairs, i, j2 = [], 0, 0
+                while i < n and j2 < m:
+                    if A[i] == B[j2]:
+                        pairs.append((cs[i], rs[j2])); i += 1; j2 += 1
+                    elif L[i + 1][j2] >= L[i][j2 + 1]:
+                        i += 1
+                    else:
+                        j2 += 1
+            for ck, rk in pairs:
+                self.fn[ck] = rk
+                work.append(ck)
         self.unmatched_fns = {k for k, f in cur.items() if f['kind'] != 'Closure' and k not in self.fn}
         self.unmatched_closures = {k for k, f in cur.items() if f['kind'] == 'Closure' and k not in self.fn}
 
@@ -304,6 +329,11 @@ class Rewriter:
         for c, r in al.fn.items():
             if c != r:
                 self.keymap[c] = r
+        # a closure without counterpart whose own key is the target of another (shifted) closure must get out of the way
+        targets = set(al.fn.values())
+        for c in getattr(al, 'unmatched_closures', ()):
+            if c in targets and c not in self.keymap:
+                self.keymap[c] = c + '{unaligned}'
         for c, r in al.const.items():
             if c != r:
                 self.keymap[c] = r
